@@ -1007,13 +1007,21 @@ func (agg *aggregate) Process(ctx context.Context, man gdbi.Manager, in gdbi.InP
 					}
 				}
 
-				count := 0
+				// most frequent terms first; size > 0 keeps the top `size` of them
+				type termCount struct {
+					term  interface{}
+					count int
+				}
+				terms := make([]termCount, 0, len(fieldTermCounts))
 				for term, tcount := range fieldTermCounts {
-					if size <= 0 || count < int(size) {
-						//sTerm, _ := structpb.NewValue(term)
-						//fmt.Printf("Term: %s %s %d\n", a.Name, sTerm, tcount)
-						out <- &gdbi.BaseTraveler{Aggregation: &gdbi.Aggregate{Name: a.Name, Key: term, Value: float64(tcount)}}
-					}
+					terms = append(terms, termCount{term, tcount})
+				}
+				sort.SliceStable(terms, func(i, j int) bool { return terms[i].count > terms[j].count })
+				if size > 0 && len(terms) > int(size) {
+					terms = terms[:size]
+				}
+				for _, tc := range terms {
+					out <- &gdbi.BaseTraveler{Aggregation: &gdbi.Aggregate{Name: a.Name, Key: tc.term, Value: float64(tc.count)}}
 				}
 				return outErr
 			})
